@@ -1576,12 +1576,13 @@ pub fn run_janitor<M: AlignMarker>(tid: usize, world: &'static World<M>, max_rou
     }
     let mut rounds = 0u64;
     let mut extra = 0;
+    shadow().ebr.mark_janitor_start();
     while rounds < max_rounds {
         let g = circ::cs();
         g.flush();
         drop(g);
         rounds += 1;
-        if shadow().all_reclaimed() {
+        if shadow().all_reclaimed() && (rounds >= 16 || shadow().ebr.unfreed_records().is_empty()) {
             // a few more rounds so that stale deferred work (double destructs) would surface
             extra += 1;
             if extra > 6 {
